@@ -21,7 +21,14 @@ theorem hexVal_digitChar (d : Nat) (hd : d < 16) : Pzpr.hexVal (digitChar d) = s
 
 theorem numToken_tok (v : Int) (hv : NumOk v) (rest : List Nat) :
     Pzpr.numToken (tok v ++ rest) = some (v, rest) := by
-  rcases tok_cases v hv with ⟨hv1, e⟩ | ⟨h0, h1, hd, e⟩ | ⟨h0, h1, hd1, hd2, hsum, e⟩
+  rcases tok_cases v hv with ⟨hv1, e⟩ | ⟨h0, h1, hd, e⟩ | ⟨h0, h1, hd1, hd2, hsum, e⟩ |
+    ⟨h0, h1, hd1, hd2, hd3, hsum, e⟩
+  rotate_right
+  · rw [e]
+    simp only [List.cons_append, List.nil_append, Pzpr.numToken]
+    simp only [if_neg (show ¬ (43 : Nat) = 46 by decide), if_neg (show ¬ (43 : Nat) = 45 by decide), if_true,
+      hexVal_digitChar _ hd1, hexVal_digitChar _ hd2, hexVal_digitChar _ hd3]
+    rw [hsum]; congr 2; omega
   · rw [e, hv1]; rfl
   · rw [e]
     have hr := digitChar_hex_range _ hd
